@@ -23,6 +23,7 @@ import (
 	"sort"
 	"strconv"
 	"strings"
+	"unicode/utf8"
 
 	"github.com/prometheus/prometheus/model/labels"
 	"github.com/prometheus/prometheus/model/timestamp"
@@ -495,6 +496,7 @@ type feat struct {
 	nodes                                          map[string]int
 	ops                                            map[string]int
 	precNest, mod, ext, subq, matching, negnum, kw int
+	strEsc                                         int // string values whose LAST character the printer escapes (\x.., \u.., \t ...)
 	depth                                          int
 }
 
@@ -520,6 +522,10 @@ func (f *feat) walk(e parser.Expr, parent parser.Expr, d int) {
 	case *parser.NumberLiteral:
 		if math.Signbit(n.Val) {
 			f.negnum++
+		}
+	case *parser.StringLiteral:
+		if endsEscaped(n.Val) {
+			f.strEsc++
 		}
 	case *parser.VectorSelector:
 		f.sel(n)
@@ -549,6 +555,9 @@ func (f *feat) sel(vs *parser.VectorSelector) {
 		f.ext++
 	}
 	for _, m := range vs.LabelMatchers {
+		if m != nil && endsEscaped(m.Value) {
+			f.strEsc++
+		}
 		if m != nil && (m.Name == "__bind__" || (strings.HasPrefix(m.Name, "__") && strings.HasSuffix(m.Name, "__") && m.Name != "__name__")) {
 			f.ext++
 		}
@@ -556,6 +565,15 @@ func (f *feat) sel(vs *parser.VectorSelector) {
 	if _, isKw := keywordSet[strings.ToLower(vs.Name)]; isKw {
 		f.kw++
 	}
+}
+
+// endsEscaped: the printer's %q writes the last character of v as an escape sequence
+func endsEscaped(v string) bool {
+	if v == "" {
+		return false
+	}
+	r, size := utf8.DecodeLastRuneInString(v)
+	return (r == utf8.RuneError && size <= 1) || !strconv.IsPrint(r) || r == '"' || r == '\\'
 }
 
 var keywordSet = map[string]bool{}
@@ -1259,13 +1277,13 @@ func runCase(h *verifx.H, src string) {
 		h.Stat("op."+k, int64(v))
 	}
 	h.Stat(fmt.Sprintf("depth.%02d", min(f.depth, 12)), 1)
-	for tag, n := range map[string]int{"prec": f.precNest, "modifier": f.mod, "ext": f.ext, "subquery": f.subq, "matching": f.matching, "negnum": f.negnum, "kwname": f.kw} {
+	for tag, n := range map[string]int{"prec": f.precNest, "modifier": f.mod, "ext": f.ext, "subquery": f.subq, "matching": f.matching, "negnum": f.negnum, "kwname": f.kw, "str-esc-end": f.strEsc} {
 		if n > 0 {
 			h.Stat("feature."+tag, 1)
 		}
 	}
-	for _, tag := range []string{"prec", "modifier", "ext", "subquery", "matching"} {
-		if map[string]int{"prec": f.precNest, "modifier": f.mod, "ext": f.ext, "subquery": f.subq, "matching": f.matching}[tag] > 0 {
+	for _, tag := range []string{"prec", "modifier", "ext", "subquery", "matching", "str-esc-end"} {
+		if map[string]int{"prec": f.precNest, "modifier": f.mod, "ext": f.ext, "subquery": f.subq, "matching": f.matching, "str-esc-end": f.strEsc}[tag] > 0 {
 			h.NonTrivial(tag)
 		}
 	}
